@@ -48,6 +48,7 @@ class Ctx:
         self.inconclusive = []
         self.solver_wall = 0.0
         self.distinct = set()
+        self.gaps = []
         self.known_hit = collections.OrderedDict()
         self.new_violations = []
         self.explanation = ""
@@ -105,8 +106,18 @@ class Ctx:
             json.dump(rec, f, indent=1, default=str)
         self.new_violations.append((signature, what, path))
 
+    def harness_gap(self, what):
+        """something the engine could not do (unsupported construct, path explosion, symbolic run failed).  Fatal
+        (exit 3) unless the same run also has replayed, unlisted violations - then the code under test has changed
+        and the violations are what matters; the gap is listed as inconclusive."""
+        self.gaps.append(what)
+
     # ---- end of run
     def finish(self):
+        if self.gaps and not self.new_violations:
+            raise HarnessError(self.gaps[0] + (f" (+{len(self.gaps) - 1} more)" if len(self.gaps) > 1 else ""))
+        for g in self.gaps:
+            self.note_inconclusive("not finished by the engine: " + g)
         for sig, what in self.known_hit.items():
             print(f"KNOWN-FINDING: property={self.pid} {sig} :: {what}")
         for sig, what, path in self.new_violations:
